@@ -320,6 +320,11 @@ def run_task(task, acc):
             for x in alpha.all_seqs(al, 0, n):
                 for zm in zmodes:
                     yield dict(kind="A", fn=name, cfg=cfg, x=list(x), how=how, zmode=zm)
+            if how in ("nd", "list", "ma"):
+                long_x = alpha.debruijn(tuple(al), 3 if len(al) > 4 else 4)  # every short window of symbols, 100-260 points
+                for zm in zmodes:
+                    yield dict(kind="A", fn=name, cfg=cfg, x=list(long_x), how=how, zmode=zm)
+                    yield dict(kind="A", fn=name, cfg=cfg, x=list(long_x) * 5, how=how, zmode=zm)
         run_cases(acc, gen(), check_case)
     else:
         _, first, second, depth = task
